@@ -466,6 +466,12 @@ func (e *APIEstablisher) update(ctx context.Context, current, desired resource.O
 		return err
 	}
 	desired.SetResourceVersion(current.GetResourceVersion())
+	// An update replaces the whole object. The finalizers of the current
+	// object belong to the controllers that added them - e.g. the XRD
+	// controllers' finalizers on an XRD, or the API server's cleanup finalizer
+	// on a CRD - and must outlive our update, in particular while the object
+	// is being deleted.
+	desired.SetFinalizers(current.GetFinalizers())
 	return e.client.Update(ctx, desired, opts...)
 }
 
